@@ -14,13 +14,15 @@ QUERY = st.tuples(st.integers(0, 7), st.sampled_from(['none', 'none', 'none', 'n
 def graph_strategy(selfloops=True, classes=('DynGraph', 'DynDiGraph'), max_ops=12, uni=(3, 5), tier='quick'):
     kw = dict(classes=classes, max_ops=max_ops, min_ops=3, rejects=False, kinds=KINDS, node_kinds=('int', 'safestr'),
               attrs=False, horizon=3, maxlen=3, uni=uni, bases=[0, 0, 1, -7, 1000, -10 ** 6, 10 ** 9])
-    small = gen.history(**kw)
+    # two thirds of the graphs are free of self-loops: a self-loop on the root puts the query inside the
+    # footprint of the listed root_selfloop_in_window finding, where C13/C15 can say less
+    small = st.one_of(gen.history(selfloops=False, **kw), gen.history(selfloops=False, **kw), gen.history(**kw))
     if tier != 'thorough':
         return small
     # thorough: one more node, one more instant, longer histories (path counts grow exponentially:
     # enumerations beyond 20 000 paths are skipped and counted)
     big = dict(kw, max_ops=max_ops + 4, horizon=4, uni=(uni[0], uni[1] + 1))
-    return st.one_of(small, gen.history(**big))
+    return st.one_of(small, gen.history(selfloops=False, **big), gen.history(**big))
 
 
 def small_universe_cases(directed_step=8, loops=False):
